@@ -9,7 +9,10 @@ typedef P11Object vp_p11_t;
 static CK_RV vp_newP11Object(P11Object** p11object)
 {
 	if (IN(newP11_rv) != CKR_OK) return IN(newP11_rv);
-	*p11object = (vp_p11_t*)malloc(sizeof(vp_p11_t));
+	*p11object = VP_RAW_NEW(vp_p11_t);
+#ifdef VP_NATIVE
+	VP_INIT_CONTAINER((*p11object)->attributes);
+#endif
 	return CKR_OK;
 }
 P11Object::~P11Object() { OUT(del_n)++; }
